@@ -297,6 +297,18 @@ def po_update(S):
         S.check("reduce-debt:oSQTH==LP-oSQTH;burned==min(it,debt)", S.eq(ra[0].withdrawn_osqth_amount, lp_osqth) and S.eq(ra[0].burn_amount, burned_lp))
         S.check("reduce-debt:bounty==2%-of-redeemed-value", S.eq(ra[0].bounty, bounty))
         S.check("excess-oSQTH-returned-to-wallet", S.eq(w.broker._assets[w.osqth].balance, wo0 + (lp_osqth - burned_lp)))
+        # after the redemption the vault holds its ETH plus the LP's ETH less the 2 % bounty, against the remaining debt: rescued (at least
+        # 1.5x) => the bounty stays paid and nothing is liquidated; still below 1.5x => the liquidation follows
+        coll_red = c0 + lp_weth - bounty
+        nf = m._market_status.data["norm_factor"]
+        rescued = s1 == 0 or coll_red * 2 >= s1 * nf * E / INDEX_SCALE * 3
+        n_liq = len([a for a in w.actions if type(a).__name__ == "LiquidationAction"])
+        if rescued:
+            S.cover("rescued-by-the-LP")
+            S.check("rescued-by-the-LP-redemption=>no-liquidation", n_liq == 0)
+            S.check("rescued-by-the-LP-redemption=>the-2%-bounty-stays-paid", S.eq(v.collateral_amount, coll_red) and S.eq(v.osqth_short_amount, s1))
+        else:
+            S.check("still-below-1.5x-after-the-redemption(net-of-the-bounty)=>liquidated", n_liq == 1)
     else:
         s1 = s0
     la = [a for a in w.actions if type(a).__name__ == "LiquidationAction"]
